@@ -267,3 +267,4 @@ def run(rep, tier):
         rep.call(support, rep, prog, "C01.support")
         rep.call(window_clamp, rep, prog, "C01.window-clamp")
         rep.call(formulas.coefficients_formula, rep, prog, "C01.formula")
+        rep.call(formulas.quantise, rep, prog, "C01.quantise")
